@@ -150,6 +150,9 @@ def norm(
     if isinstance(ord, Real) and np.isinf(ord):
         op = mg_max if ord > 0 else mg_min
         abs_ = absolute(x, constant=constant)
+        if not np.issubdtype(abs_.dtype, np.inexact):
+            # numpy.linalg.norm computes the norm of integer / boolean data in float64
+            abs_ = abs_.astype(np.float64)
         out = op(abs_, axis=axis, keepdims=keepdims)
 
         in_ndim = abs_.ndim  # (`abs_.creator` is None when graph-tracking is off)
